@@ -240,7 +240,7 @@ ObsFlags(w, ev) ==
   \cup {F(CompProp(w, ev, <<-1, -1>>), "mask mismatch", s) : s \in maskBad}
   \cup {F(AliveProp(w, ev), "is_alive through a storage's fetched entities differs from Entities::is_alive", s) : s \in feBad}
   \cup {F("C12", "event stream mismatch (storage, expected, received)", <<s, w.evq[s], o.st[s].evs>>) : s \in evBad}
-  \cup (IF evBad # {} /\ ((ev.op = "WOp" /\ ev.k = "restrict") \/ (ev.op = "SOp" /\ ev.path \in {"r_get_other", "rl_get_other", "rm_get_other", "rm_get_other_mut"}))
+  \cup (IF evBad # {} /\ ((ev.op = "WOp" /\ ev.k = "restrict") \/ (ev.op = "SOp" /\ ev.path \in {"r_get_other", "rl_get_other", "rm_get_other", "rm_get_other_mut", "rm_get_other_mut_replace"}))
         THEN {F("C13", "events after an operation on a restricted storage (storage, expected, received)", <<s, w.evq[s], o.st[s].evs>>) : s \in evBad} ELSE {})
 
 \* after a sweep that read the event channels, the expectations start afresh
@@ -360,7 +360,7 @@ SOp(w, ev) ==
                              ev.ress_w[i] # (IF exp = Absent \/ ev.val < 0 THEN exp ELSE <<exp[1], ev.val>>)
       \* the lending join's lookup by entity is also part of C06, restricted lookups of C13
       props == {prop} \cup (IF ev.path \in {"lend_get", "lend2_get", "lend_get_mut", "lentry_get", "lmaybe_get"} THEN {"C06"} ELSE {})
-                      \cup (IF ev.path \in {"r_get_other", "rl_get_other", "rm_get_other", "rm_get_other_mut"} THEN {"C13"} ELSE {})
+                      \cup (IF ev.path \in {"r_get_other", "rl_get_other", "rm_get_other", "rm_get_other_mut", "rm_get_other_mut_replace"} THEN {"C13"} ELSE {})
       mk(w2, exp) == [w |-> w2, f |-> IF bad(exp) THEN {F(p, "storage op result", <<ev.cls, ev.path, s, h, exp>>) : p \in props} ELSE {}]
       viaEntry == ev.path \in {"entry_replace", "entry_insert"}
   IN CASE ev.cls = "read"   -> mk(w, Cur(w, s, h))
@@ -385,6 +385,11 @@ SOp(w, ev) ==
                       IN mk(w2, ev.c)
                  ELSE mk(EvMut(GiveBack(w, s, ev.c, "library"), s, h[1], FALSE), old)
        [] ev.cls = "remove" -> LET r == DoRemove(w, s, h) IN mk(GiveBack(r.w, s, r.res, "harness"), r.res)
+       [] ev.cls = "replace" ->   \* `*access = c` through a mutable access: the old value is destroyed, c takes its place
+            LET old == Cur(w, s, h) IN
+            IF old = Absent THEN mk(w, Absent)      \* (no access, the harness did not create the new value)
+            ELSE LET w1 == [w EXCEPT !.comp[s] = FnSet(w.comp[s], h, ev.c), !.led = LedSet(w.led, ev.c[1], "held")]
+                 IN mk(EvMut(GiveBack(w1, s, old, "library"), s, h[1], TRUE), old)
        [] ev.cls = "gremove" ->   \* GenericWriteStorage::remove: nothing is returned, the library destroys the value
             LET r == DoRemove(w, s, h) IN [w |-> GiveBack(r.w, s, r.res, "library"), f |-> {}]
        [] ev.cls = "gmod"   ->
